@@ -123,6 +123,18 @@ fn ident_str(p: &[Node]) -> String {
 fn rand_node(rng: &mut Rng) -> Node {
     if BIGRAT.load(std::sync::atomic::Ordering::Relaxed) && rng.chance(1, 2) {
         // wide scope: numerators / denominators beyond 32 bits, both signs, markers up to 40
+        match rng.below(4) {
+            0 => {
+                // neighbours 1 + k/2^52: exactly representable doubles whose SUM is not
+                return ((1i64 << 52) + rng.below(8) as i64, 1i64 << 52, rng.below(41) as u64);
+            }
+            1 => {
+                // small non-negative values over denominators whose lcm passes 2^63
+                let d = [3i64 << 61, 1i64 << 62, 3, 5i64 << 60][rng.below(4)];
+                return (rng.below(6) as i64, d, rng.below(41) as u64);
+            }
+            _ => {}
+        }
         let n = (rng.next() % 40_000_000_000u64) as i64 - 20_000_000_000i64;
         let d = [1i64, 3, 1 << 20, 6_000_000_007, -7][rng.below(5)];
         return (n, d, rng.below(41) as u64);
@@ -1067,7 +1079,33 @@ pub fn wide(out: &mut String, rng: &mut Rng, profile: &str, cases: usize) {
                 h.w_snap = 2;
                 h.snap_only = true;
                 h.flush = i % 2 == 0;
-                let style = i % 3;
+                let style = i % 4;
+                if style == 3 {
+                    // "typing at one spot": replica 0 appends a few elements, replica 1 then inserts 60..90 times at the SAME index between
+                    // two of them (rationals halve every time: denominators pass 2^53 and 2^64), the others receive everything causally
+                    writeln!(out, "T list 3").unwrap();
+                    let base = 3 + rng.below(2);
+                    for j in 0..base {
+                        writeln!(out, "G 0 o{} append {}", j, j).unwrap();
+                        writeln!(out, "D 1 o{}", j).unwrap();
+                    }
+                    let at = 1 + rng.below(base - 1);
+                    let typed = 60 + rng.below(31);
+                    for j in 0..typed {
+                        writeln!(out, "G 1 o{} ins {} {}", base + j, at, (j % 40) + 5).unwrap();
+                        if j % 16 == 15 {
+                            writeln!(out, "D 2 o{}", rng.below(base)).unwrap();
+                        }
+                    }
+                    for r in [0usize, 2] {
+                        for j in 0..(base + typed) {
+                            writeln!(out, "D {} o{}", r, j).unwrap();
+                        }
+                    }
+                    writeln!(out, "RO").unwrap();
+                    writeln!(out, "E").unwrap();
+                    continue;
+                }
                 history(out, rng, &h, &mut |r, _| {
                     val += 1;
                     match style {
@@ -2028,6 +2066,11 @@ pub fn main(args: &[String]) {
             }
         }
         "merkle_small_all_orders" => crate::gen_merkle::small_all_orders(&mut out, &mut rng, cases),
+        "merkle_wide" => {
+            for i in 0..cases {
+                crate::gen_merkle::wide(&mut out, &mut rng, i);
+            }
+        }
         "map_scenario" => map_scenario(&mut out, &mut rng, cases),
         "map_overtake" => map_overtake(&mut out, &mut rng, cases),
         "orswot_wide" | "mvreg_wide" | "map_wide" | "lattice_wide" | "vclock_wide" | "list_wide" | "glist_wide" | "ident_wide" => wide(&mut out, &mut rng, profile, cases),
